@@ -7,7 +7,9 @@ every operation."""
 from ECAgent.Core import Agent, ComponentNotFoundError, Model
 from ECAgent.Environments import PositionComponent
 
-from .worlds import RefWorld, gen_coord, gen_delta, gen_world, get_pos, make_world
+from simkit.stepgate import StepGate
+
+from .worlds import RefWorld, gen_coord, gen_delta, gen_extras, gen_world, get_pos, make_agents, make_world
 
 PROPERTY = "C08"
 QUICK_RUNS = 16000
@@ -18,12 +20,13 @@ RULE = ("world kind in {SpaceWorld, DiscreteWorld, LineWorld, GridWorld}, extent
         "signs); integers in grid worlds, dyadic k/8 in continuous worlds; non-trivial = >=2 agents in a non-cubic world "
         "and >=1 move crossing an edge; distinct = (kind, extents class, wrap, sequence of op kinds with accept/reject "
         "and edge-crossing flags)"
-        "; also: worlds that are not model.environment, wrap_env reassigned in mid-history, coordinates left to their documented defaults, model lifecycle ops, integer moves of 2**31..2**64 in grid worlds repeated on one axis")
+        "; also: worlds that are not model.environment, wrap_env reassigned in mid-history, coordinates left to their documented defaults, model lifecycle ops, integer moves of 2**31..2**64 in grid worlds repeated on one axis, agents carrying own components incl. a PositionComponent subclass, agents that are environments themselves, stretches of the history issued from inside a running timestep")
 COMPONENTS = {"real": ["ECAgent.Environments.SpaceWorld.add_agent / remove_agent / move / move_to", "DiscreteWorld / LineWorld / "
                        "GridWorld constructors", "PositionComponent"],
               "stub": ["agents are plain ECAgent agents created by the harness"]}
 PROBES = ["multi_lap_wrap", "negative_wrap", "clamp_both_sides_one_move", "placement_on_hi", "zero_extent_axis",
-          "reject.oob", "reject.move_to_oob", "reject.no_position", "move_to_accepted", "continuous_world", "grid_world", "model_lifecycle_op", "wrap_mode_switched", "defaults_used_for_omitted_coordinates", "huge_integer_move_in_grid"]
+          "reject.oob", "reject.move_to_oob", "reject.no_position", "move_to_accepted", "continuous_world", "grid_world", "model_lifecycle_op", "wrap_mode_switched", "defaults_used_for_omitted_coordinates", "huge_integer_move_in_grid",
+          "agent_with_position_subclass_component", "agent_is_an_environment", "ops_from_inside_a_timestep"]
 TECHNIQUE = "deterministic simulation: seeded placement/move histories with injected rejected operations vs an exact (dyadic) arithmetic reference, containment invariant after every op"
 LEVEL_TEXT = ("Seeded search over world configurations and move histories; after every operation every resident agent's "
               "coordinates must equal the exact reference (modular in wrapping worlds, saturating otherwise) and lie inside "
@@ -78,7 +81,14 @@ def generate(rng, tier):
                 d = [0, 0, 0]
                 d[ax] = sign * big
                 ops.insert(at + j, {"op": "move", "k": k, "d": d, "sparse": rng.random() < 0.3, "huge": True})
-    return {"world": world, "n": n, "ops": ops}
+    if rng.random() < 0.25 and len(ops) >= 2:
+        # a stretch of the history is issued from inside a running timestep (by a System, as far as the package can tell)
+        i_ = rng.randint(0, len(ops) - 1)
+        j_ = rng.randint(i_ + 1, len(ops))
+        ops.insert(j_, {"op": "leave_step"})
+        ops.insert(i_, {"op": "enter_step"})
+    extras = gen_extras(rng, n, lambda ax: rng.randint(0, max(ref.hi(ax), 0)) if ref.positive(ax) else 0)
+    return {"world": world, "n": n, "ops": ops, "extras": extras}
 
 
 def sparse(args, on):
@@ -95,7 +105,7 @@ def execute(sc, ctx):
     ref = RefWorld(sc["world"])
     env = make_world(m, sc["world"])
     n = max(1, int(sc["n"]))
-    agents = [Agent(f"a{i}", m) for i in range(n)]
+    agents = make_agents(m, n, sc.get("extras", []), ref, ctx)
     pos = {}           # reference: agent index -> numerators (None on zero-extent axes after a move)
     shape = []
     crossed = False
@@ -128,8 +138,17 @@ def execute(sc, ctx):
             if i not in pos:
                 ctx.check(PositionComponent not in agents[i], "position-not-dropped", f"{where}: a{i} left but keeps a position")
 
+    gate = StepGate(ctx)
     for op in sc["ops"]:
         kind = op["op"]
+        if kind == "enter_step":
+            gate.enter(m)
+            continue
+        if kind == "leave_step":
+            gate.leave()
+            continue
+        if kind == "lifecycle" and ctx.in_step and op.get("what") == "step":
+            continue          # stepping the model from inside its own timestep is re-entrant stepping: outside the statements
         k = op["k"] % n
         a = agents[k]
         if kind == "add":
@@ -235,5 +254,7 @@ def execute(sc, ctx):
             shape.append(["rm"])
         check_all(kind)
         ctx.state([sc["world"]["kind"], ref.wrap, sorted(pos), kind])
+    gate.leave()
+    check_all("after-the-step")
     ctx.nontrivial = n >= 2 and len(pos) + 0 >= 0 and not cubic and crossed and sum(1 for s in shape if s[0] == "add" and s[1] == "ok") >= 2
     ctx.sig = [sc["world"]["kind"], [min(e, 2) for e in ref.ext], ref.wrap, shape[:60]]
